@@ -624,4 +624,62 @@ def SEv.docs : SEv → List Rec
 def delivered (h : List SEv) : List Rec :=
   ((h.reverse.takeWhile (fun e => !e.clears)).reverse).flatMap SEv.docs
 
+/-! ## the race store directory over time: `FileRaceStore.store_race` / `find_by_race_id` / `list`
+    on ONE root directory, several times for the same race id -/
+
+/-- a stored document: which document it is (index into the documents of the case) and its race timestamp -/
+structure RaceDoc where
+  ts : Nat
+  doc : Nat
+  deriving DecidableEq, Repr
+
+/-- `<root>/races/<race id>/race.json`: race id ↦ content (keys unique) -/
+abbrev RaceDir := List (Str × RaceDoc)
+
+inductive REv where
+  /-- `store_race(race)`: `open(race.json, "w")` replaces whatever the file held -/
+  | store (id : Str) (d : RaceDoc)
+  | find (id : Str)
+  /-- `list()` with `system/list.max_results = max` -/
+  | list (max : Nat)
+
+inductive RAns where
+  | found (d : RaceDoc)
+  | notFound
+  | listed (l : List (Str × RaceDoc))
+  deriving DecidableEq
+
+def dirStore (m : RaceDir) (id : Str) (d : RaceDoc) : RaceDir := (id, d) :: m.filter (fun e => e.1 != id)
+
+def dirFind (m : RaceDir) (id : Str) : Option RaceDoc := (m.find? (fun e => e.1 == id)).map Prod.snd
+
+/-- `sorted(races, key=race_timestamp, reverse=True)[:max_results]` (ties: unspecified glob order — the harness
+    keeps timestamps distinct) -/
+def dirList (m : RaceDir) (max : Nat) : List (Str × RaceDoc) :=
+  (m.mergeSort (fun a b => decide (b.2.ts ≤ a.2.ts))).take max
+
+def dirStep (m : RaceDir) : REv → RaceDir
+  | .store id d => dirStore m id d
+  | _ => m
+
+def dirAns (m : RaceDir) : REv → Option RAns
+  | .store _ _ => none
+  | .find id => some (match dirFind m id with | some d => .found d | none => .notFound)
+  | .list max => some (.listed (dirList m max))
+
+def dirAfter (m : RaceDir) (h : List REv) : RaceDir := h.foldl dirStep m
+
+def raceRun : RaceDir → List REv → List RAns
+  | _, [] => []
+  | m, e :: es =>
+    match dirAns m e with
+    | some a => a :: raceRun (dirStep m e) es
+    | none => raceRun (dirStep m e) es
+
+/-- declarative: the document stored LAST for a race id in a history -/
+def lastStored (h : List REv) (id : Str) : Option RaceDoc :=
+  h.reverse.findSome? (fun e => match e with
+    | .store i d => if i == id then some d else none
+    | _ => none)
+
 end Stats
